@@ -79,6 +79,11 @@ CHECKS = {
    text="Four (thorough: five) scenarios: writer || re-subscribing streamer; two writers (one unauthorised on two of its three channels) || two streamers; a writer of 140-channel frames || two single-channel streamers; the two-writer/two-streamer scenario with streamers connected until the writers finish; thorough adds DB.Close as a thread. Every interleaving of the harness operations (open+ack, sync stream write, re-subscribe, disconnect, close) and of the lock/atomic operations below them with at most 2 (3) preemptions, for select rotations 0-2, sharded over 12 processes. Each streamer is drained by an always-ready consumer; delivered frames are decoded only after the execution ended. Oracle: no frame twice, per-writer order, only subscribed keys (monotone across a re-subscription), no series of a channel whose gate another writer held during the whole write, every frame written while the streamer was connected received (streamers disconnect after one second of fake time so in-flight frames can drain), and every operation returns (no deadlock).",
    note="channel operations inside relay/confluence are not scheduling points (no channel instrumenter was built): interleavings are explored at harness-operation and lock-operation granularity; fake time (the 20 ms slow-consumer timeout fires only if the scheduler advances the clock); virtual channels; replay of an execution compares traces and clock-free outcomes.",
    design="3/C20"),
+ "C11": dict(level="model_checking", engine="schedx",
+   technique="stateless exploration (DFS, bounded deviations) of the real pledge protocol: k concurrent pledge.Pledge calls against m real pledge.Arbitrate handlers under the schedx controlled scheduler, every transport Send an environment choice (deliver / fail / reply lost), timers on fake time, quorum choice varied through the map-iteration offset",
+   text="Three (thorough: five) configurations - 3 members with identical views and 2 concurrent joins through different members, the same with message faults, members 1-2 stale about a node that joined through member 3 (a real earlier join) with faults; thorough: 4 members / 3 joins, 1 member / 2 joins. All interleavings of the joiners, the responsibles' quorum goroutines and the jurors at transport sends and lock/atomic operations, with every Send resolved as delivered, failed, or delivered with the reply lost, at most 2 (3) deviations per schedule, for 3 (5) map-iteration offsets (which change the majority xrand.SubMap selects). Oracle on every execution: no two admitted nodes share a key (including keys handed out earlier), every returned key was approved by a majority of the coordinator's view, the cluster key is returned; a pledge that never returns is a violation.",
+   note="views are harness-owned (identical, or lagging by one joined node); juror memory is per process, juror restarts are not modelled; requests time out only when the scheduler advances fake time; every execution is one complete run of the real handlers, replayed for determinism (GC disabled inside an execution).",
+   design="3/C11"),
 }
 NOT_YET = {}
 props = [json.loads(l) for l in open(os.path.join(HERE, "properties.jsonl"))]
